@@ -13,7 +13,7 @@ LEVEL = "fault_enumeration"
 RULE = ("case = one execution of a corpus plan (traced: every yield logs the response or exception it receives) in which ONE "
         "device operation - every (device, op in {set, trigger, read, stage, unstage, kickoff, complete, collect, locate (sync and coroutine, single and multi-device messages)}, n-th "
         "occurrence) of the uninterrupted run - is made to raise synchronously, to return a status that fails at once, or "
-        "one that fails later, crossed with a plan that ignores, handles (recovers and returns) or transforms the error; plus a plan whose set is waited for only after later checkpoints, with a pause+resume or a suspension landing at every loop coordinate before the status fails; "
+        "one that fails later (incl. library count over a triggerable detector and a trigger-less signal in both orders, where a failed trigger status must arrive before the next checkpoint whether or not a wait is found), crossed with a plan that ignores, handles (recovers and returns) or transforms the error; plus a plan whose set is waited for only after later checkpoints, with a pause+resume or a suspension landing at every loop coordinate before the status fails; "
         "oracle: synchronous failure -> thrown at the yield of the causing message, same object; failed status -> thrown "
         "at a yield between the causing message and the wait on its group, as FailedStatus with the device exception as "
         "__cause__; the call then ends as the plan's reaction dictates; distinct = (device op, failure mode, reaction, "
@@ -31,7 +31,10 @@ MANIFEST = {
     "note": "Corpus plans (incl. locate in all shapes, motions waited for after later checkpoints / after open_run); one fault per execution, optionally a pause or suspension before the wait.",
     "design_ref": "3 (C12)",
 }
-PLANS_Q = ["scan", "custom", "fly", "count", "nested", "locate2", "late_wait2"]
+PLANS_Q = ["scan", "custom", "fly", "count", "nested", "locate2", "late_wait2", "count_mixed", "count_mixed_first"]
+# plans made of library stubs only: whatever they start they wait for before the next checkpoint, so for them "never after an
+# unrelated later checkpoint" is judged even when no wait on the group is found
+LIB_PLANS = {"count", "scan", "count_mixed", "count_mixed_first", "grid", "list_scan", "rel_scan"}
 PLANS_T = PLANS_Q + ["grid", "rel_scan", "list_scan", "neverclose", "two_runs", "mixed"]
 SHARD_TIMEOUT = {"quick": 900, "thorough": 3600}
 OPS = ("set", "trigger", "read", "stage", "unstage", "kickoff", "complete", "collect", "locate")
@@ -101,7 +104,16 @@ def judge(ex, case):
                     w = e[3]
                     break
         got = next((e for i, e in thrown if i > f), None)
-        if w is None:
+        if w is None and spec["plan"] in LIB_PLANS:
+            counters["unwaited_in_library_plan_judged"] = 1
+            cps = [e[3] for i, e in yields if e[3] > yi and e[4].command == "checkpoint"]
+            if got is None:
+                problems.append(("failed-status-never-reached-the-plan", f"{dev}.{op} status failed ({mode}); nothing thrown; the library plan never waits on group {grp!r}"))
+            elif cps and got[3] > cps[0]:
+                problems.append(("failed-status-delivered-after-unrelated-later-checkpoint",
+                                 f"thrown at yield {got[3]}, message at {yi}, next checkpoint at yield {cps[0]}; no wait on group {grp!r} in between"))
+            w = got[3] if got is not None else yi
+        elif w is None:
             return [R("skip", key0, False, detail="status of this message is never waited for", counters={"executions": 1})]
         if got is None:
             problems.append(("failed-status-never-reached-the-plan", f"{dev}.{op} status failed ({mode}); nothing thrown; wait at yield {w}"))
